@@ -92,7 +92,7 @@ impl Check for C10 {
 							Params::Two(BOUNDARY[(j % 9) as usize], BOUNDARY[((j / 9) % 9) as usize])
 						}
 					} else {
-						Params::Two(r.below(256.min(PMAX + 1)), r.below(256.min(PMAX + 1)))
+						Params::Two(r.below(256.min(PMAX.saturating_add(1))), r.below(256.min(PMAX.saturating_add(1))))
 					}
 				}
 				PKind::Unit => Params::Unit,
